@@ -1,4 +1,5 @@
 import Syzgy.Lemmas.Scan
+import Syzgy.Lemmas.Refine
 /-!
 # C02 — durability across close / reopen
 -/
@@ -31,5 +32,18 @@ theorem reopen_quiescent (segs : List Seg) (hok : ∀ s ∈ segs, s.OK) (hnd : (
 theorem readonly_no_store (file : Bytes) (acc : ScanAcc) (off : Nat) :
     (freeSuperseded file true acc off).patches = acc.patches := by
   simp [freeSuperseded]
+
+/-- **Close and reopen after any history.** Any state reached from a state that satisfies the invariant by
+    any operation sequence can be reopened, read-only or writable: not one byte of the file changes,
+    the rebuilt index and free map satisfy the invariant again, and the reopened file stands for the
+    same store — every document written and not removed since is there with the streams last written,
+    no removed or superseded version comes back. -/
+theorem reopen_after_any_history (ops : List Op) (s : SF) (segs : List Seg) (h : Rep s segs) (hf : FitsAll s ops) (ro : Bool) :
+    ∃ segs' s', Rep (ops.foldl applyOp s) segs' ∧
+      scanFile (ops.foldl applyOp s).file ro = .ok s' ∧ s'.file = (ops.foldl applyOp s).file ∧ Rep s' segs' ∧
+      ∀ r, docOf r segs' = ops.foldl specStep (fun r => docOf r segs) r := by
+  obtain ⟨segs', h1, h2⟩ := run_refines ops s segs h hf
+  obtain ⟨s', h3, h4, h5⟩ := reopen_refines _ segs' h1 ro
+  exact ⟨segs', s', h1, h3, h4, h5, h2⟩
 
 end Syzgy.C02
